@@ -481,11 +481,11 @@ func C15(r *ev.Report) {
 	}
 
 	if g := secp256k1.VerifAllGlobals(); g != globals {
-		r.Violation("globals/changed", fmt.Sprintf("package-level state changed: %s -> %s", globals, g), Case{"op": "globals"})
+		r.PackageState("globals/changed", fmt.Sprintf("package-level state changed: %s -> %s", globals, g), Case{"op": "globals"})
 	}
 
 	if g := secp256k1.VerifAllGlobals(); prelude.Baseline != "" && g != prelude.Baseline {
-		r.Violation("globals/differ-from-process-start", fmt.Sprintf("package-level state is not what it was before the first call into the library: %s -> %s", prelude.Baseline, g), Case{"op": "globals"})
+		r.PackageState("globals/differ-from-process-start", fmt.Sprintf("package-level state is not what it was before the first call into the library: %s -> %s", prelude.Baseline, g), Case{"op": "globals"})
 	}
 
 	api, err := exportedAPI()
